@@ -206,18 +206,72 @@ Section WithEnv.
       end
     end.
 
+  (** * fillContainers as the library runs it since D11, failure included: the containers that were bound something are
+      visited in the order of their declared names; the first failing Set aborts the pass and leaves the containers as
+      they are at that point -- the earlier ones filled (value, SetByUser, ValueSetFromEnv cleared), the failing one
+      cleared (if multi-valued) and holding what was set before the failure, its flags untouched, the later ones untouched *)
+  Fixpoint set_all_partial (v : cval) (vs : list str) : cval * bool :=
+    match vs with
+    | [] => (v, true)
+    | s :: vs' => let (v', ok) := vset_log parse_float v s in
+                  if ok then set_all_partial v' vs' else (v', false)
+    end.
+
+  Definition fill_one_partial (c : container) (vs : list str) : container * bool :=
+    let v0 := if is_multi (d_kind (ct_decl c)) then vclear (ct_value c) else ct_value c in
+    let (v, ok) := set_all_partial v0 vs in
+    if ok then (mkCont (ct_decl c) (ct_names c) v (ct_default c) false true, true)
+    else (mkCont (ct_decl c) (ct_names c) v (ct_default c) (ct_fromenv c) (ct_user c), false).
+
+  Fixpoint insert_by_name (cs : list container) (k : nat) (l : list nat) : list nat :=
+    match l with
+    | [] => [k]
+    | j :: l' =>
+      let name i := match nth_error cs i with Some c => d_name (ct_decl c) | None => [] end in
+      if str_ltb (name j) (name k) then j :: insert_by_name cs k l' else k :: l
+    end.
+
+  (** the indices of the containers that were bound something, sorted by declared name *)
+  Definition fill_order (cs : list container) (mk : nat -> key) (bs : list binding) : list nat :=
+    fold_right (insert_by_name cs) []
+               (filter (fun k => match values_for (mk k) bs with [] => false | _ => true end) (List.seq 0 (length cs))).
+
+  Fixpoint fill_partial (cs : list container) (order : list nat) (mk : nat -> key) (bs : list binding)
+    : list container * bool :=
+    match order with
+    | [] => (cs, true)
+    | k :: rest =>
+      match nth_error cs k with
+      | None => fill_partial cs rest mk bs
+      | Some c =>
+        let (c', ok) := fill_one_partial c (values_for (mk k) bs) in
+        if ok then fill_partial (set_nth k c' cs) rest mk bs else (set_nth k c' cs, false)
+      end
+    end.
+
+  (** what fsm.Parse leaves in the containers, whatever its verdict *)
+  Definition fsm_parse_state (i : inited) (argv : list str) : inited :=
+    match fsm_apply (optinfo_of (i_opts i)) (i_graph i) (i_start i) argv with
+    | AOk bs =>
+      let (o', ok) := fill_partial (i_opts i) (fill_order (i_opts i) KO bs) KO bs in
+      if ok then
+        let (a', _) := fill_partial (i_args i) (fill_order (i_args i) KA bs) KA bs in
+        mkInit o' a' (i_spec i) (i_start i) (i_graph i)
+      else mkInit o' (i_args i) (i_spec i) (i_start i) (i_graph i)
+    | _ => i
+    end.
+
   (** the state a second Run of the same application object starts from: the containers as fsm.Parse left them
       (values written, SetByUser set, ValueSetFromEnv cleared where the line gave a value) *)
   Definition after_run (i : inited) (opts' args' : list container) : inited :=
     mkInit opts' args' (i_spec i) (i_start i) (i_graph i).
 
   (** one command object parsing two lines in turn; the verdict and containers of the second parse.
-      [None]: the first parse ended in a conversion error, after which the library leaves the containers
-      partly filled (not modelled) *)
+      (after a conversion error the second parse starts from the partly filled containers: [fsm_parse_state]) *)
   Definition fsm_parse_twice (i : inited) (argv1 argv2 : list str) : option parse_res :=
     match fsm_parse i argv1 with
     | PAccept o' a' => Some (fsm_parse (after_run i o' a') argv2)
-    | PConv => None
+    | PConv => Some (fsm_parse (fsm_parse_state i argv1) argv2)
     | _ => Some (fsm_parse i argv2)
     end.
 
